@@ -162,3 +162,40 @@ example : (run dupNew {} [.beginBusy, .deliver ⟨true, false⟩, .deliver ⟨tr
   decide
 
 end Am.Pipes
+
+namespace Am.Pipes
+
+/-- **C18 (BindAny: the target's active set equals the source's)**: after the
+    handler has run for a source transition with target states `states`, a state
+    of the source is active on the target iff it is among `states` — whatever the
+    target held before (fix 8d7ab55). -/
+theorem C18_bindany_equal (names tgt states : List Nat) (hs : ∀ x ∈ states, x ∈ names) :
+    ∀ n ∈ names, (n ∈ bindAnyStep true names tgt states ↔ n ∈ states) := by
+  intro n hn
+  unfold bindAnyStep
+  simp only [Bool.not_true, Bool.false_or]
+  split
+  · rename_i h
+    simp only [Bool.and_eq_true, List.all_eq_true, List.contains_iff_mem, List.mem_filter,
+      Bool.not_eq_true', and_imp] at h
+    constructor
+    · intro hm
+      apply Classical.byContradiction
+      intro hns
+      have := h.2 n hn (by simpa using hns)
+      simp [hm] at this
+    · intro hm
+      simpa using h.1 n hm
+  · exact Iff.rfl
+
+/-- **the pinned subset test did not have the property**: a source that shrinks
+    its active set from (0 1) to (0) leaves the target at (0 1). -/
+theorem C18_bindany_pinned_false :
+    ∃ names tgt states, (∀ x ∈ states, x ∈ names) ∧
+      ¬ (∀ n ∈ names, (n ∈ bindAnyStep false names tgt states ↔ n ∈ states)) := by
+  refine ⟨[0, 1], [0, 1], [0], by decide, ?_⟩
+  intro h
+  have := (h 1 (by decide)).1 (by decide)
+  simp at this
+
+end Am.Pipes
